@@ -166,7 +166,111 @@ def subst(e, mapping):
         return ("CL", e[1], tuple(subst(v, mapping) for v in e[2]))
     if t == "PHI":
         return mk_phi(e[1], tuple((p, subst(v, mapping)) for (p, v) in e[2]), e[3])
+    if t == "GATE":
+        return ("GATE", subst(e[1], mapping), tuple((l, subst(v, mapping)) for (l, v) in e[2]))
     return tuple(subst(x, mapping) if isinstance(x, tuple) else x for x in e)
+
+
+def is_expr(x):
+    return isinstance(x, tuple) and len(x) > 0 and isinstance(x[0], str)
+
+
+def map_expr(e, f):
+    """Rebuild e bottom-up applying f to every (already rebuilt) sub-expression."""
+    if not is_expr(e):
+        return e
+    t = e[0]
+    if t in ("K", "KS", "P", "FN", "LOOP", "UNINIT", "?", "KV", "RESUME"):
+        return f(e)
+    if t == "A":
+        r = ("A", e[1], e[2], tuple((n, map_expr(v, f)) for (n, v) in e[3]))
+    elif t == "C":
+        r = ("C", e[1], e[2], tuple(map_expr(a, f) for a in e[3]), e[4])
+    elif t in ("T", "ARR"):
+        r = (t, tuple(map_expr(a, f) for a in e[1]))
+    elif t == "CL":
+        r = ("CL", e[1], tuple(map_expr(a, f) for a in e[2]))
+    elif t == "PHI":
+        r = ("PHI", e[1], tuple((p, map_expr(v, f)) for (p, v) in e[2]), e[3])
+    elif t in ("UPD", "UPDF"):
+        r = (t, map_expr(e[1], f), e[2], e[3])
+    elif t == "WITH":
+        r = ("WITH", map_expr(e[1], f), e[2], map_expr(e[3], f))
+    elif t == "GATE":
+        r = ("GATE", map_expr(e[1], f), tuple((l, map_expr(v, f)) for (l, v) in e[2]))
+    else:
+        r = tuple(map_expr(x, f) if is_expr(x) else x for x in e)
+    return f(r)
+
+
+def strip_casts(e):
+    """Drop integer casts and lossless integer From/Into conversions; Default::default() -> k(default)."""
+    def f(x):
+        if x[0] == "CAST":
+            return x[1]
+        if x[0] == "C" and len(x[3]) == 1 and (x[1].endswith("::from") or x[1].endswith("::into")) \
+                and ("From<" in x[1] or "Into<" in x[1] or x[1].startswith("std::convert::")) \
+                and x[2] and all(y in MASK for y in x[2][:2]):
+            return x[3][0]
+        if x[0] == "C" and not x[3] and x[1].endswith("::default"):
+            return ("KS", "default", "")
+        return x
+    return map_expr(e, f)
+
+
+def erase_sites(e):
+    def f(x):
+        if x[0] == "C":
+            return ("C", x[1], x[2], x[3], None)
+        if x[0] == "PHI":
+            return ("PHI", None, tuple(sorted(((None, v) for (_, v) in x[2]), key=repr)), None)
+        if x[0] in ("UPD", "UPDF"):
+            return (x[0], x[1], x[2], None)
+        return x
+    return map_expr(e, f)
+
+
+def erase_sites_old(e):
+    """Same expression with call-site identities removed (for comparing code at different sites)."""
+    if not isinstance(e, tuple) or not e:
+        return e
+    t = e[0]
+    if t == "C":
+        return ("C", e[1], e[2], tuple(erase_sites(a) for a in e[3]), None)
+    if t in ("K", "KS", "P", "FN", "LOOP", "UNINIT", "?"):
+        return e
+    if t == "A":
+        return ("A", e[1], e[2], tuple((n, erase_sites(v)) for (n, v) in e[3]))
+    if t == "PHI":
+        return ("PHI", None, tuple(sorted((None, erase_sites(v)) for (_, v) in e[2])), None)
+    if t in ("UPD", "UPDF"):
+        return (t, erase_sites(e[1]), e[2], None)
+    return tuple(erase_sites(x) if isinstance(x, tuple) and x and isinstance(x[0], str)
+                 else (tuple(erase_sites(y) if isinstance(y, tuple) and y and isinstance(y[0], str) else y for y in x)
+                       if isinstance(x, tuple) else x) for x in e)
+
+
+def def_value(v, body, name):
+    """Value given to the (single-assignment) user variable `name` at its definition."""
+    body.names
+    ls = [l for l, n in body.names.items() if n == name]
+    for l in ls:
+        ds = [d for d in body.defs.get(l, []) if not d[3]]
+        if len(ds) == 1:
+            d = ds[0]
+            if d[2] == "assign":
+                return v.rvalue(d[4], d[0], d[1])
+            if d[2] == "call":
+                return v.call_expr(d[4])
+        elif len(ds) > 1:
+            # defined on several branches (let x = if .. {a} else {b}): value where they join
+            blocks = sorted(set(d[0] for d in ds))
+            # first block dominated by none of the def blocks but reachable from all
+            for bb in body.rpo():
+                if all(body.can_reach(b0, bb) for b0 in blocks) \
+                        and not any(body.dominates(b0, bb) for b0 in blocks) and len(body.pred[bb]) > 1:
+                    return v.local_at(l, bb, 0)
+    return None
 
 
 def walk(e):
@@ -478,11 +582,47 @@ class VF:
             fp = self.operand(c.d["ptr"], c.bb, len(self.body.stmts(c.bb)))
             return ("C", "<indirect>", (), tuple([fp] + args), (self.body.key, c.bb))
         e = mk_call(c.fn, c.substs, args, (self.body.key, c.bb), res=c.res)
+        if e[0] == "C" and e[4] == (self.body.key, c.bb):
+            g = self.option_combinator(c, args)
+            if g is not None:
+                return g
         if e[0] == "C" and e[4] == (self.body.key, c.bb) and self.depth > 0:
             inl = self.try_inline(c, args)
             if inl is not None:
                 return inl
         return e
+
+    def closure_value(self, cl, extra_args=()):
+        """Return value of a closure expression ('CL', key, captures) applied to extra_args,
+        when its body is a small pure function; else None."""
+        if cl[0] != "CL":
+            return None
+        body = self.facts.fns.get(cl[1])
+        if body is None or body.n > 24 or body.key in self.stack:
+            return None
+        params = {1: cl}
+        for i, a in enumerate(extra_args):
+            params[2 + i] = a
+        sub = VF(body, max(self.depth - 1, 0), params=params, stack=self.stack)
+        r = sub.ret()
+        for x in walk(r):
+            if x[0] in ("?", "LOOP", "UNINIT", "UPD", "UPDF", "PHI", "RESUME", "WITH"):
+                return None
+        return r
+
+    def option_combinator(self, c, args):
+        """Option::unwrap_or_else / unwrap_or as an explicit two-way gate on the option."""
+        k = c.fn
+        if k == "std::option::Option::<T>::unwrap_or_else" and len(args) == 2:
+            none = self.closure_value(args[1])
+            if none is None:
+                return None
+        elif k == "std::option::Option::<T>::unwrap_or" and len(args) == 2:
+            none = args[1]
+        else:
+            return None
+        opt = args[0]
+        return ("GATE", ("D", opt, "std::option::Option"), ((0, none), (1, field(("V", opt, "Some"), "0", 0))))
 
     def try_inline(self, c, args):
         if c.trait and not c.res:
@@ -726,6 +866,7 @@ def short(key):
 
 
 NOUPD = [False]
+NOCAST = [False]
 
 
 def guard_str(c, lab, ty, values):
@@ -834,6 +975,8 @@ def render(e, body=None, roots=None, depth=0, short=False, vfx=None):
             return "%s%s{%s}" % (adt, "" if e[2] == adt else "::" + e[2],
                                  ", ".join("%s: %s" % (n, R(v)) for (n, v) in e[3]))
         if t == "CAST":
+            if NOCAST[0]:
+                return R(e[1])
             return "(%s as %s)" % (R(e[1]), shortty(e[2]))
         if t == "PHI" and vfx is not None:
             vx = vfx.get(e[3]) if isinstance(vfx, dict) else (vfx if vfx.body.key == e[3] else None)
@@ -893,6 +1036,8 @@ def render(e, body=None, roots=None, depth=0, short=False, vfx=None):
     if t == "LEN":
         return "len(%s)" % R(e[1])
     if t == "CAST":
+        if NOCAST[0]:
+            return R(e[1])
         return "(%s as %s)" % (R(e[1]), e[2])
     if t == "D":
         return "discr(%s)" % R(e[1])
@@ -909,6 +1054,10 @@ def render(e, body=None, roots=None, depth=0, short=False, vfx=None):
         return "closure(%s)" % e[1].rsplit("::", 1)[-1]
     if t == "PHI":
         return "phi(%s)" % " | ".join(sorted(set(R(v) for (_, v) in e[2])))
+    if t == "GATE":
+        c = R(e[1])
+        arms = ["%s => %s" % (guard_str(c, l, "isize", [x[0] for x in e[2]]), R(v)) for (l, v) in e[2]]
+        return "phi{%s}" % " | ".join(sorted(set(arms)))
     if t in ("UPD", "UPDF"):
         if NOUPD[0]:
             return R(e[1])
